@@ -53,6 +53,35 @@ for m in ("add r1, r2", "adc r1, r2", "sub r1, r2", "sbc r1, r2", "and r1, r2", 
     add(m)
 
 
+UNIVERSAL = ["add r1, r2", "adc r3, r4", "sub r16, r17", "and r0, r31", "eor r5, r5", "mov r7, r8", "cp r1, r2", "cpse r1, r2", "ldi r16, low(K1)", "ldi r31, high(K2)",
+             "subi r17, K1 & 0xff", "andi r20, 0x0f", "ori r21, 1 << 4", "cpi r22, 'a'", "com r1", "neg r2", "inc r3", "dec r4", "lsl r5", "lsr r6", "rol r7",
+             "ror r8", "asr r9", "swap r10", "tst r11", "clr r12", "ser r18", "in r1, 0x3f", "out 0x3f, r1", "sbi 5, 1", "cbi 31, 7", "sbic 0, 0", "sbis 31, 7",
+             "sbrc r1, 3", "sbrs r31, 7", "bst r1, 0", "bld r2, 7", "bset 3", "bclr 5", "sec", "clz", "sei", "cli", "nop", "sleep", "wdr", "ret", "reti",
+             "ld r0, Z", "st Z, r1", "rjmp @", "rcall @", "breq @", "brne @", "brcs @", "brlt @", "brbs 3, @", "brbc 6, @", "rjmp pc", "brne pc-1",
+             ".dw K1, K2", ".db 1, 2, 3", ".db \"text\"", ".dw @", ".db low(@), high(@)"]
+
+
+def universal_programs(rng, n):
+    """programs made only of forms every device has (no flag removes them), small enough for the smallest part: assembling
+    them under ANY device must give the code of the device-less build (the device enters the encoder only through gated forms)"""
+    out = []
+    for _ in range(n):
+        k = rng.randrange(3, 25)
+        nlab = rng.randrange(1, 4)
+        at = sorted(rng.randrange(0, k + 1) for _ in range(nlab))
+        lines = [".equ K1 = %d" % rng.randrange(0, 65536), ".equ K2 = %d" % rng.randrange(0, 65536)]
+        for i in range(k + 1):
+            for j, a in enumerate(at):
+                if a == i:
+                    lines.append("L%d:" % j)
+            if i < k:
+                lines.append("  " + rng.choice(UNIVERSAL).replace("@", "L%d" % rng.randrange(nlab)))
+        if rng.random() < 0.3:
+            lines.insert(rng.randrange(2, len(lines)), ".org %d" % rng.choice([40, 64, 100]))
+        out.append("\n".join(lines) + "\n")
+    return out
+
+
 def run(res):
     vh, exe = P.base(res, PROP)
     devs = gen.read_devices(vh)
@@ -102,7 +131,19 @@ def run(res):
         t = ".device %s\n%s\n" % (name, "\n".join(lines))
         texts.append(t)
         seq_meta.append((t, name, opts, forms))
+    uni = universal_programs(rng, 30 if res.tier == "quick" else 3000)
+    uni_meta = []
+    for u in uni:
+        texts.append(u)
+        for name, _, _, _, _, opts in devs[1:]:
+            t = ".device %s\n%s" % (name, u)
+            texts.append(t)
+            uni_meta.append((t, u, name))
     obs = P.correspond(res, vh, exe, texts, "device x instruction-form programs and sequences")
+    for t, u, name in uni_meta:
+        a, b = progrun.parse_obs(obs[t][0]), progrun.parse_obs(obs[u][0])
+        if b["kind"] == "OK" and (a["kind"] != "OK" or a["code"] != b["code"]):
+            P.fail(res, "builder::build_str", t, "the code of the same program without a device: " + obs[u][0][:80], obs[t][0][:80], "device-changes-code")
     for t, name, opts, forms in seq_meta:
         a = progrun.parse_obs(obs[t][0])
         bad = [f[0] for f in forms if f[1] & opts]
@@ -134,7 +175,8 @@ def run(res):
                 "NoXreg/NoYreg = every X/Y form, Tiny1x = adiw sbiw ijmp icall ldd std lds sts push pop, NoLpm, NoLpmX = lpm Rd,Z[+], "
                 "NoElpm, NoElpmX, NoSpm, NoMovw, NoBreak, NoEicall, NoEijmp, Avr8l = adiw sbiw + one-word lds/sts); plus, per device, every ordered "
                 "pair of forms of one mnemonic and random triples of forms (separated by nothing, .org or a label): the verdict on a form must "
-                "not depend on what precedes it" % len(FORMS))
+                "not depend on what precedes it; random programs of forms no flag removes (registers, immediates, bit and port operations, "
+                "relative jumps and branches to labels, data), under every device: same code as without a device" % len(FORMS))
     res.samples = [dict(source=m[0], flags=sorted(m[3] & m[4]), observed=obs[m[0]][0][:40]) for m in meta[:3]]
     res.assume = ["GateSpec (FORMS in vlib/c13.py, mirrored by Spec/GateSpec.v) is my reading of the flag comments in device.rs"]
 
